@@ -186,14 +186,14 @@ CHECKS["C13"] = dict(level="model_checking", ref="DESIGN.md 0.1, 5 C13", tech=VA
          "objects. Three fixes recorded (d2c8cef, 7cc798b, bacb4ad).")
 CHECKS["C10"] = dict(level="model_checking", ref="DESIGN.md 0.1, 5 C10", tech=VALTECH,
     text="Every deterministic mode (AES ECB/CBC/CBC-PAD/CTR/GCM/CMAC, 3DES ECB/CBC-PAD/CMAC, HMAC-SHA1/256/512, RSA PKCS#1 "
-         "v1.5 with and without SHA-256) x key size x message length (0, whole blocks, a length across block boundaries) x way "
+         "v1.5 with and without SHA-256, raw RSA, Ed25519) x key size x message length (0, whole blocks, a length across block boundaries) x way "
          "of feeding the message (single-part, one part, uneven parts, too-small buffer first and retry) is a transition whose "
          "result TERM does not contain the way of feeding: TLC demands one byte string per term, equal to the reference; the "
          "inverse operation restores / verifies it; every altered variant (data, MAC, signature, GCM tag, IV, AAD, "
-         "truncation) is rejected. Randomised schemes (PSS, OAEP, PKCS#1 v1.5 encryption, ECDSA P-256): the reference accepts the "
+         "truncation) is rejected. Randomised schemes (PSS, OAEP, PKCS#1 v1.5 encryption, ECDSA P-256, DSA-SHA256): the reference accepts the "
          "library's output and the library the reference's. Digests; derived secrets (encrypt-data, concatenation, DH, ECDH).",
-    note="Trusted as C13. NOT covered yet: DSA, EdDSA, ECDSA beyond P-256, X25519/X448, raw RSA, RSA > 1024 bits, GCM "
-         "IV / tag length ranges, CTR counter widths other than 128 (DESIGN.md 0.1 'Not covered').")
+    note="Trusted as C13. NOT covered yet: ECDSA beyond P-256, Ed448, X25519/X448, RSA > 1024 bits, GCM IV / tag lengths "
+         "other than (12,128) and (16,96), CTR counter widths other than 128 and 64 (DESIGN.md 0.1 'Not covered').")
 CHECKS["C20"] = dict(level="model_checking", ref="DESIGN.md 0.1, 5 C20",
     tech=VALTECH + "; the same behaviours under file/OpenSSL, db/OpenSSL, file/Botan, db/Botan in ONE trace validation; "
          "P11Tok behaviours under both storage backends",
